@@ -61,7 +61,18 @@ def parse_tla_seq(txt):
 
 
 # ---------------------------------------------------------------- history -> script
-def script_of(hist, rng, nmax=24, threads=(1, 2, 4), ienv=None, scale_for_equil=True, pert=None, track=True, matgen=None, symmetric=False, tight=0, scale=None):
+def script_of(hist, rng, nmax=24, threads=(1, 2, 4), ienv=None, scale_for_equil=True, pert=None, track=True, matgen=None, symmetric=False, tight=0, scale=None, rhs=None):
+    # shape of the right-hand sides: one | multi (2..3 columns, tight) | multi_pad (2..3 columns, leading dimensions > n) | zero
+    def rhs_shape(default_n, default_pad, default_padx):
+        if rhs == "one":
+            return 1, default_pad, default_padx
+        if rhs == "multi":
+            return rng.choice([2, 3]), 0, 0
+        if rhs == "multi_pad":
+            return rng.choice([2, 3]), rng.choice([1, 3]), rng.choice([1, 2])
+        if rhs == "zero":
+            return 0, default_pad, default_padx
+        return default_n, default_pad, default_padx
     lines = []
     ps, rl, ms = ienv or (rng.choice([1, 2, 4, 8]), rng.choice([1, 2, 4]), rng.choice([2, 4, 8]))
     lines.append("ienv p1=%d p2=%d p3=%d" % (ps, rl, ms))
@@ -96,14 +107,18 @@ def script_of(hist, rng, nmax=24, threads=(1, 2, 4), ienv=None, scale_for_equil=
         elif c["call"] == "vals":
             lines.append("vals seed=%d" % rng.randrange(1, 10 ** 6))
         elif c["call"] == "gssv":
-            lines.append("gssv P=%d nrhs=%d pad=%d seed=%d" % (rng.choice(threads), rng.choice([0, 1, 2, 3]), rng.choice([0, 0, 3]), rng.randrange(1, 10 ** 6)))
+            nr, pd, _ = rhs_shape(rng.choice([0, 1, 2, 3]), rng.choice([0, 0, 3]), 0)
+            lines.append("gssv P=%d nrhs=%d pad=%d seed=%d" % (rng.choice(threads), nr, pd, rng.randrange(1, 10 ** 6)))
         elif c["call"] == "gssvx":
             lw = {"sys": 0, "user": 16 << 20, "query": -1}[c["lw"]]
             if c["lw"] == "user" and tight:
                 lw = "auto%d" % tight      # a workspace sized from the library's own estimate
+            nr, pd, px = rhs_shape(rng.choice([1, 1, 2, 3]), rng.choice([0, 0, 2]), rng.choice([0, 0, 1]))
+            if nr == 0 and c["lw"] != "query":
+                nr = 1          # the expert-driver records need a solution to judge; nrhs = 0 is exercised through the simple driver and C15
             lines.append("gssvx P=%d fact=%s refact=%d usepr=%d trans=%s lwork=%s nrhs=%d pad=%d padx=%d seed=%d u=%s%s" % (
-                rng.choice(threads), c["fact"], int(c["refact"]), int(c["usepr"]), c["trans"], lw, rng.choice([1, 1, 2, 3]),
-                rng.choice([0, 0, 2]), rng.choice([0, 0, 1]), rng.randrange(1, 10 ** 6),
+                rng.choice(threads), c["fact"], int(c["refact"]), int(c["usepr"]), c["trans"], lw, nr,
+                pd, px, rng.randrange(1, 10 ** 6),
                 "0.0" if symmetric else rng.choice(["1.0", "1.0", "0.5", "0.1"]), " sym=1" if symmetric else ""))
         elif c["call"] == "destroy":
             lines.append("destroy")
